@@ -492,6 +492,23 @@ def run(chk: Check) -> None:
         chk.case(("jar", k, v), nontrivial=True)
     chk.count("jar", n_jar)
 
+    # parsing is a function of the text: a result that the caller mutates must not leak into a later parse of the same text
+    # (state surviving between calls, e.g. a cached result object)
+    from werkzeug.sansio import http as _sh
+    for htxt in ["a=1; b=2", 'k="x\\054y"; a=1', "a=1", ""]:
+        for fn_name, fn in (("sansio.parse_cookie", lambda t: _sh.parse_cookie(t)), ("http.parse_cookie", lambda t: whttp.parse_cookie(t))):
+            try:
+                r1 = fn(htxt)
+                snap = list(r1.items(multi=True))
+                r1.add("zz", "injected")
+                r1.setlist("a", ["changed"])
+                r2 = fn(htxt)
+                if r2 is r1 or list(r2.items(multi=True)) != snap:
+                    chk.fail("parse-not-pure", f"{fn_name}({htxt!r}) after the caller mutated an earlier result: {list(r2.items(multi=True))!r}, first time {snap!r}",
+                             {"header": htxt, "function": fn_name})
+            except Exception as e:  # noqa: BLE001
+                chk.fail("parse-not-pure", f"{fn_name}({htxt!r}) raised {e!r} on the second call", {"header": htxt, "function": fn_name})
+            chk.case(("pure", fn_name, htxt), True)
     # which cookies the jar sends: the model of Cookie._matches_request (coq/C13/JarMatchModel.v) against the method, and the
     # RFC 6265 path-match / domain-match oracle end to end through Client (set with Path / Domain, request another path / host)
     from werkzeug.test import Cookie as _Ck
